@@ -6,8 +6,8 @@ func init() {
 		Title: "File uploads arrive at the owning service unchanged",
 		Kernels: []Kernel{
 			{Name: "uploads", Pkg: ".", Files: []string{"root/fed.go", "root/c01.go", "root/c02.go", "root/c10.go", "root/c19.go"}, Entry: "VerifUploads", Mode: "seq", Race: true,
-				Reach: []string{"batched upload", "single upload"},
-				Known: []string{"C19-one-file-for-two-services"},
+				Reach:     []string{"batched upload", "single upload"},
+				Known:     []string{"C19-one-file-for-two-services"},
 				Functions: []string{"requests.Parse (multipart branch)", "requests.(*ParseRequestResponse).injectFile", "executor.(*DepthExecutor).getVariables", "queryer.extractFiles", "queryer.(*UploadMap).extract/Add/Map", "queryer.prepareMultipart", "queryer.(*MultiOpQueryer).fetchFile", "queryer.(*MultiOpQueryer).queryBatch", "queryer.(*MultiOpQueryer).sendMultipartRequest"}},
 		},
 		Assume: []string{
